@@ -108,6 +108,52 @@ func c16(c *Ctx) {
 		}
 		c.Check(bad == "", "R1", key, at(gx.M, fn.Pos()), "test → insert under "+typ+".mtx", "an instrument created while installation is in progress can be left permanently unconnected: "+bad)
 	}
+	// Unregister claims the registration atomically: the read of unreg (the decision "still registered") and its clearing are
+	// one critical section — otherwise installation can find the registration live while an Unregister is already under way
+	if fn := c.Fn(gx, "R1", "(*registration).Unregister"); fn != nil {
+		fU := lookupField(gx.Pkg, "registration", "unreg")
+		g := gx.FG(fn)
+		mu := varKey(fn.Recv()) + ".unregMu"
+		var reads, clears []*GNode
+		for _, x := range g.Nodes {
+			if x.N == nil {
+				continue
+			}
+			as, isAs := x.N.(*ast.AssignStmt)
+			isClear := false
+			if isAs {
+				for i, l := range as.Lhs {
+					if isField(info, l, fU) && len(as.Lhs) == len(as.Rhs) && isNilIdent(info, as.Rhs[i]) {
+						isClear = true
+					}
+				}
+			}
+			if isClear {
+				clears = append(clears, x)
+				// `err, c.unreg = c.unreg(), nil` reads and clears in one statement
+			}
+			hit := false
+			inspectNoLit(x.N, func(n ast.Node) bool {
+				if e, ok := n.(ast.Expr); ok && isField(info, e, fU) {
+					hit = true
+				}
+				return true
+			})
+			if hit && !isClear {
+				reads = append(reads, x)
+			}
+		}
+		bad := ""
+		for _, r := range reads {
+			for _, w := range clears {
+				if rel := le.ReleasesBetween(fn, r, w, mu); rel != nil {
+					bad = "unregMu is released at " + gx.M.posStr(rel.N.Pos()) + " between reading unreg and clearing it"
+				}
+			}
+		}
+		c.Check(bad == "" && len(clears) > 0, "R1", "global|(*registration).Unregister|unreg read and cleared in one critical section", at(gx.M, fn.Pos()), itoa(len(reads))+" read(s), "+itoa(len(clears))+" clear(s) under one hold of unregMu",
+			"an Unregister that has started is still seen as a live registration by a concurrent installation (the callback is registered with the SDK although the user unregistered it, and can never be removed): "+bad)
+	}
 	atomicReg("(*meterProvider).Meter", "meterProvider", "meters")
 	atomicReg("(*tracerProvider).Tracer", "tracerProvider", "tracers")
 	atomicReg("(*meter).RegisterCallback", "meter", "registry")
